@@ -12,6 +12,8 @@ for p in props:
         na.append({"property_id": p, "reason": registry.NOT_CLAIMED.get(p, registry.PENDING_REASON) if hasattr(registry, "NOT_CLAIMED") else registry.PENDING_REASON})
         continue
     text, note, technique, ref = registry.TEXT[p]
+    if p in getattr(registry, "EXTRA", {}):
+        text = text + " " + registry.EXTRA[p]
     checks.append({
         "property_id": p,
         "quick_cmd": f"./vcheck {p} --tier quick",
